@@ -23,7 +23,7 @@ type SolveResult struct {
 	Script  string
 }
 
-func assembleScript(reg *Registry, o *Obligation, forCVC5 bool, wantModel bool) string {
+func assembleScript(reg *Registry, o *Obligation, forCVC5 bool, wantModel bool, dropExists bool) string {
 	// prune unused definitions (walk backwards)
 	need := map[string]bool{}
 	mark := func(t string) {
@@ -56,6 +56,9 @@ func assembleScript(reg *Registry, o *Obligation, forCVC5 bool, wantModel bool) 
 		}
 		if it.Def != "" {
 			fmt.Fprintf(&body, "(define-fun %s () %s %s)\n", it.Def, it.Sort, it.Term)
+		} else if dropExists && strings.Contains(it.Term, "(exists ") {
+			// weakened variant: hypotheses with nested existentials are dropped (sound: fewer assumptions)
+			continue
 		} else {
 			fmt.Fprintf(&body, "(assert %s)\n", it.Term)
 		}
@@ -96,18 +99,20 @@ type Solver struct {
 var solvers = []Solver{
 	{Name: "z3-new", Args: func(f string, t int) []string { return []string{"z3-new", fmt.Sprintf("-T:%d", t), f} }},
 	{Name: "z3", Args: func(f string, t int) []string { return []string{"z3", fmt.Sprintf("-T:%d", t), f} }},
+	{Name: "z3-new-nomb", Args: func(f string, t int) []string { return []string{"z3-new", fmt.Sprintf("-T:%d", t), "smt.mbqi=false", f} }},
+	{Name: "z3-nomb", Args: func(f string, t int) []string { return []string{"z3", fmt.Sprintf("-T:%d", t), "smt.mbqi=false", f} }},
 	{Name: "cvc5", Args: func(f string, t int) []string {
 		return []string{"cvc5", fmt.Sprintf("--tlimit=%d", t*1000), "--incremental", f}
 	}, CVC5: true},
 }
 
-func runSolver(s Solver, script string, dir string, id string, timeoutS int) SolveResult {
+func runSolver(parent context.Context, s Solver, script string, dir string, id string, timeoutS int) SolveResult {
 	file := filepath.Join(dir, fmt.Sprintf("%s.%s.smt2", id, s.Name))
 	if err := os.WriteFile(file, []byte(script), 0o644); err != nil {
 		return SolveResult{Status: "error", Solver: s.Name, Output: err.Error()}
 	}
 	args := s.Args(file, timeoutS)
-	ctx, cancel := context.WithTimeout(context.Background(), time.Duration(timeoutS+5)*time.Second)
+	ctx, cancel := context.WithTimeout(parent, time.Duration(timeoutS+5)*time.Second)
 	defer cancel()
 	t0 := time.Now()
 	cmd := exec.CommandContext(ctx, args[0], args[1:]...)
@@ -168,7 +173,7 @@ func (d *Discharger) Discharge(reg *Registry, o *Obligation) *OblResult {
 		d.count("fold", 0)
 		return r
 	}
-	script := assembleScript(reg, o, false, false)
+	script := assembleScript(reg, o, false, false, false)
 	h := sha256.Sum256([]byte(script))
 	id := fmt.Sprintf("%x", h[:8])
 	r.ScriptID = id
@@ -202,22 +207,58 @@ func (d *Discharger) Discharge(reg *Registry, o *Obligation) *OblResult {
 		return false
 	}
 	// stage 1: z3-new, short
-	if finish(runSolver(solvers[0], script, d.Dir, id, d.Quick)) {
+	if finish(runSolver(context.Background(), solvers[0], script, d.Dir, id, d.Quick)) {
 		d.cache.Store(id, r)
 		return r
 	}
-	// stage 2: old z3 and cvc5 in parallel, then z3-new with the full budget
-	type res struct{ sr SolveResult }
-	ch := make(chan SolveResult, 3)
-	cvcScript := assembleScript(reg, o, true, false)
-	go func() { ch <- runSolver(solvers[1], script, d.Dir, id, d.Full) }()
-	go func() { ch <- runSolver(solvers[2], cvcScript, d.Dir, id, d.Full) }()
-	go func() { ch <- runSolver(solvers[0], script, d.Dir, id, d.Full) }()
+	// stage 2: portfolio in parallel. Variants: full script / script without
+	// hypotheses containing nested existentials (sound weakening); z3 with and
+	// without model-based quantifier instantiation; cvc5.
+	type attempt struct {
+		s      Solver
+		script string
+		tag    string
+		weak   bool
+	}
+	var atts []attempt
+	byName := func(n string) Solver {
+		for _, s := range solvers {
+			if s.Name == n {
+				return s
+			}
+		}
+		return solvers[0]
+	}
+	cvcScript := assembleScript(reg, o, true, false, false)
+	atts = append(atts, attempt{byName("z3"), script, "", false}, attempt{byName("cvc5"), cvcScript, "", false}, attempt{byName("z3-new"), script, "", false})
+	if !o.ExpectSat {
+		atts = append(atts, attempt{byName("z3-new-nomb"), script, "", true})
+		weak := assembleScript(reg, o, false, false, true)
+		if weak != script {
+			atts = append(atts, attempt{byName("z3-new"), weak, "w", true}, attempt{byName("z3-nomb"), weak, "w", true})
+		}
+	}
+	ch := make(chan SolveResult, len(atts))
+	pctx, pcancel := context.WithCancel(context.Background())
+	defer pcancel()
+	for _, a := range atts {
+		go func(a attempt) {
+			sr := runSolver(pctx, a.s, a.script, d.Dir, id+a.tag, d.Full)
+			if a.weak && sr.Status == "sat" {
+				sr.Status = "unknown" // a model of weakened hypotheses refutes nothing
+			}
+			if a.tag != "" {
+				sr.Solver += "+weakened"
+			}
+			ch <- sr
+		}(a)
+	}
 	done := false
-	for i := 0; i < 3; i++ {
+	for range atts {
 		sr := <-ch
 		if !done && finish(sr) {
 			done = true
+			pcancel()
 		} else if done {
 			r.All = append(r.All, sr)
 		}
@@ -249,9 +290,31 @@ func (d *Discharger) Model(reg *Registry, o *Obligation, solver string) string {
 		if s.Name != solver {
 			continue
 		}
-		script := assembleScript(reg, o, s.CVC5, true)
-		sr := runSolver(s, script, d.Dir, "model_"+sanitize(trunc(o.Name, 60)), d.Full)
+		script := assembleScript(reg, o, s.CVC5, true, false)
+		sr := runSolver(context.Background(), s, script, d.Dir, "model_"+sanitize(trunc(o.Name, 60)), d.Full)
 		return sr.Output
 	}
 	return ""
+}
+
+// DischargeVacuity: one cheap attempt to show the assumptions on a return path satisfiable.
+// unsat = this return is unreachable; unknown = not shown either way.
+func (d *Discharger) DischargeVacuity(reg *Registry, o *Obligation) *OblResult {
+	r := &OblResult{O: o}
+	script := assembleScript(reg, o, false, false, false)
+	h := sha256.Sum256([]byte(script))
+	id := fmt.Sprintf("%x", h[:8])
+	sr := runSolver(context.Background(), solvers[0], script, d.Dir, id, 2)
+	d.count(sr.Solver, sr.Seconds)
+	r.Res = sr
+	switch sr.Status {
+	case "sat":
+		r.Status = "proved"
+	case "unsat":
+		r.Status = "vacuous"
+	default:
+		r.Status = "proved" // not shown unreachable
+		r.Res.Solver = "none"
+	}
+	return r
 }
